@@ -337,7 +337,9 @@ func rep(s string, n int) string {
 func c01DeepTemplates() []c01DeepTemplate {
 	ab := gen.In{Items: []gen.ListItem{{Kind: "lit", S: "a"}, {Kind: "lit", S: "b"}}}
 	x, cc := gen.Lit{S: "x"}, gen.Lit{S: "c"}
-	star := func(b gen.Node, lazy bool) gen.Loop { return gen.Loop{Min: 0, Max: -1, Form: "atleast", Lazy: lazy, Body: b} }
+	star := func(b gen.Node, lazy bool) gen.Loop {
+		return gen.Loop{Min: 0, Max: -1, Form: "atleast", Lazy: lazy, Body: b}
+	}
 	return []c01DeepTemplate{
 		{"greedy-loop-then-literal", []gen.Node{x, star(ab, false), cc}, func(k int) []string {
 			return []string{"x" + rep("ab", k) + "c", "x" + rep("ab", k), "x" + rep("ab", k/2) + "c" + rep("ba", k/2) + "c!", rep("ab", k) + "xc"}
